@@ -98,6 +98,11 @@ class C12:
         for v in ALL_VERSIONS:
             for items in ga.jump_patterns(self.pp.tables(ctx, v)):
                 yield {"k": "asm", "v": v, "items": items, "subprocess": False}
+            # opcode number 0 (STOP_CODE / unnamed before 3.11, where 0 became CACHE): a row like any other
+            if pd.vt(v) < (3, 11):
+                nop = self.pp.tables(ctx, v).opmap["NOP"]
+                code = bytes([0, nop, 0, 0, nop]) if pd.vt(v) < (3, 6) else bytes([0, 0, nop, 0, 0, 0, 0, 0, nop, 0])
+                yield {"k": "rawcode", "v": v, "code": rw.hx(code), "subprocess": False}
 
     def judge(self, case, ctx):
         if case.get("k") == "asmpair":
